@@ -5,6 +5,7 @@ import (
 	"fmt"
 	"net"
 	"reflect"
+	"runtime"
 	"sync"
 	"sync/atomic"
 	"testing/synctest"
@@ -220,23 +221,25 @@ func (g *simGen) AllocateConn(conf turn.AllocateConnConfig) (net.Conn, error) {
 
 // Client is a scripted raw TURN client (the harness speaks STUN itself).
 type Client struct {
-	Idx       int
-	Addr      *net.UDPAddr
-	Sock      *sim.UDPSock // datagram clients
-	Conn      *sim.Conn    // stream clients: the control connection
-	Stream    bool
-	Dead      bool // control connection closed
-	Stalled   bool // stream client that currently does not read its control connection
-	rbuf      []byte
-	User      int
-	Nonce     string // latest nonce seen
-	Nonce0    string // first nonce seen (for staleness probes)
-	Nonce0At  time.Time
-	NonceAt   time.Time
-	RealmSeen string
-	LastTx    [12]byte
-	AllocTx   [12]byte
-	HasAlloc  bool
+	Idx          int
+	Addr         *net.UDPAddr
+	Sock         *sim.UDPSock // datagram clients
+	Conn         *sim.Conn    // stream clients: the control connection
+	Stream       bool
+	Dead         bool // control connection closed
+	Stalled      bool // stream client that currently does not read its control connection
+	rbuf         []byte
+	User         int
+	Nonce        string // latest nonce seen
+	Nonce0       string // first nonce seen (for staleness probes)
+	Nonce0At     time.Time
+	NonceAt      time.Time
+	RealmSeen    string
+	LastTx       [12]byte
+	AllocTx      [12]byte
+	RefreshTx    [12]byte
+	HasRefreshTx bool
+	HasAlloc     bool
 	// freshChallenge: the nonce in Nonce was issued by the very last response to this client
 	freshChallenge bool
 	txn            uint32
@@ -266,6 +269,7 @@ type World struct {
 	curOp            string
 	model            *Model
 	closed           bool
+	chanProbes       atomic.Int64
 	// callback bookkeeping
 	cbActive int
 	trace    []string
@@ -415,6 +419,7 @@ func NewWorld(cfg Config, verbose bool) (*World, error) {
 				w.event(Event{Kind: "ChanCreated", Src: addrStr(src), Relay: addrStr(relay), Peer: addrStr(peer), Channel: ch, User: user})
 			},
 			OnChannelDeleted: func(src, dst net.Addr, proto, user, realm string, relay, peer net.Addr, ch uint16) {
+				w.probeChanDeleted(relay, peer)
 				w.event(Event{Kind: "ChanDeleted", Src: addrStr(src), Relay: addrStr(relay), Peer: addrStr(peer), Channel: ch, User: user})
 			},
 			// (an operator who wants an audit trail sets this one too; its calls are only counted -
@@ -429,6 +434,10 @@ func NewWorld(cfg Config, verbose bool) (*World, error) {
 			}
 			for _, u := range Users {
 				if u.Name == ra.Username {
+					if cfg.EmptyUserID {
+						return "", ref.LongTermKey(u.Name, ra.Realm, u.Pass), true
+					}
+
 					return u.Name, ref.LongTermKey(u.Name, ra.Realm, u.Pass), true
 				}
 			}
@@ -603,6 +612,36 @@ func (c *Client) nextTx() [12]byte {
 	}
 
 	return id
+}
+
+// ChanDeletedProbe is the payload of the datagram a bound peer sends from inside OnChannelDeleted.
+var ChanDeletedProbe = []byte("zz-probe-sent-while-OnChannelDeleted-runs")
+
+// probeChanDeleted runs inside OnChannelDeleted: the peer whose binding is being removed sends a
+// datagram to the relayed address, and the callback gives the relay loop a moment (real
+// scheduling, no virtual time: the caller may hold a lock). The end of the binding has been
+// announced, so that datagram must never reach the client as ChannelData (observe judges it).
+func (w *World) probeChanDeleted(relay, peer net.Addr) {
+	if !w.cfg.ProbeChanDeleted {
+		return
+	}
+	ra, ok1 := relay.(*net.UDPAddr)
+	pa, ok2 := peer.(*net.UDPAddr)
+	if !ok1 || !ok2 {
+		return
+	}
+	for _, p := range w.peers {
+		if l := p.Local(); l.Port == pa.Port && l.IP.Equal(pa.IP) {
+			if _, err := p.WriteTo(ChanDeletedProbe, ra); err == nil {
+				w.chanProbes.Add(1)
+				for i := 0; i < 300; i++ {
+					runtime.Gosched()
+				}
+			}
+
+			return
+		}
+	}
 }
 
 // maySleepIn: a callback may sleep on the virtual clock only where the library holds no lock.
